@@ -321,15 +321,26 @@ func astconcMain(args []string) int {
 				done <- [2]string{"", ""}
 			}()
 		}
-		for fin := 0; fin < G; {
-			d := <-done
-			if d[0] == "" {
-				fin++
-				continue
+		hung := false
+		for fin := 0; fin < G && !hung; {
+			select {
+			case d := <-done:
+				if d[0] == "" {
+					fin++
+					continue
+				}
+				addBad(concBad{Kind: "result_mismatch", Ops: []string{d[0]}, Doc: docText, Mode: round, Got: []string{d[1]}, Sig: "stress_mismatch"})
+			case <-time.After(60 * time.Second):
+				// every operation here is a read of a small document: a minute without any goroutine finishing or reporting
+				// is a read that never returns (a lock that is never released)
+				hung = true
+				addBad(concBad{Kind: "hang", Ops: []string{fmt.Sprintf("%d of %d stress goroutines never finished", G-fin, G)}, Doc: docText, Mode: round, Sig: "stress_hang"})
 			}
-			addBad(concBad{Kind: "result_mismatch", Ops: []string{d[0]}, Doc: docText, Mode: round, Got: []string{d[1]}, Sig: "stress_mismatch"})
 		}
 		S.StressRuns++
+		if hung {
+			break // the stuck goroutines keep their node; further rounds would only add load
+		}
 	}
 	S.WallS = time.Since(t0).Seconds()
 	b, _ := json.MarshalIndent(S, "", " ")
